@@ -136,6 +136,8 @@ def match_known(known, pid, entry, v):
             continue
         if k.get("label_re") and not re.search(k["label_re"], v["label"]):
             continue
+        if k.get("where_re") and not re.search(k["where_re"], v.get("where", "")):
+            continue
         return k
     return None
 
